@@ -113,7 +113,15 @@ RULE = ('random cells of every crystal family + triclinic (dyadic-grid vectors, 
         'decimals and the matching atol (any rtol, explicit smallshift as list / tuple / array, arguments by keyword or '
         'position), half of those strained by up to 5e-5 per component and converted with rtol 2.5e-3, the t cells every '
         'other time through the self-detecting t; conventional cells of 50-70 motif atoms; Box.identifyfamily under 8 '
-        'tolerance pairs on cells with equal / nearly equal constants; distinct = distinct canonical request line; '
+        'tolerance pairs on cells with equal / nearly equal constants; round 5: per run two re-orientations of few-atom cells '
+        'with a bounding supercell of 5.2e5 .. 1.05e6 atoms (axis-aligned / sheared / general new cells; for each axis of the '
+        'new cell one atom 2e-9 .. 6e-8 of the new cell below the face across it, box origins zero / dyadic / lattice vector / '
+        'a hair below a lattice plane), one of a 9000 .. 32000-atom cell along small vectors, one supersize to 5e5 .. 1e6 atoms '
+        '(thorough: 2e6), checked by a periodic k-d tree oracle; primitive_to_conventional called directly on cells in every '
+        'orientation (LAMMPS-oriented, rotated, mirrored, mirrored + rotated, axes permuted, general of either handedness; '
+        'atoms on far faces / one cell outside / histories) under every setting incl. p, undone by conventional_to_primitive; '
+        'conventional cells of every setting in those orientations; cells along the Cartesian axes with the axes permuted / '
+        'mirrored / half-turned through rotate, supersize and both conversions; distinct = distinct canonical request line; '
         'non-trivial = more than one replica / U != identity')
 ASSUMPTIONS = ['numpy.linalg.inv and float arithmetic of the implementation are within rtol 1e-9 of the exact value on '
                'the generated (well-conditioned, dyadic) cells',
@@ -166,7 +174,11 @@ MANIFEST = {
             'constructors build are of that family), the family lists of the settings, the lattice-site test at the '
             'caller\'s atol (exact sites pass any tolerance, monotone in the tolerance, periodic, the exact test at 0) and '
             'the setting the conversion works with (t resolves to t2 for a cell passing the t2 test at the caller\'s '
-            'tolerances). Tied to the code by an '
+            'tolerances). Round 5: nothing rotate or supersize decide depends on the Cartesian frame the cell is written in '
+            '(rotated, mirrored = left-handed, axes permuted: reframe by any invertible matrix) - relative coordinates, '
+            'replicas, kept / dropped atoms, identity shortcut, count test and refusals; the result is the re-framed '
+            'result (rotate_reframe), so conversions of cells that are not LAMMPS-oriented return the same crystal. '
+            'Tied to the code by an '
             'exact/toleranced correspondence run on supersize '
             'and rotate (incl. refusals) and an exact lattice-arithmetic oracle on the real results (requested vectors, '
             'proper transform, payload incl. tensors, cell conversions undoing one another).',
